@@ -41,7 +41,9 @@ Group(t) ==
         decls  |-> [i \in 1..Len(ds) |-> [m |-> ds[i].m, h |-> Host(ds[i].p), p |-> Path(ds[i].p),
                                           t |-> ds[i].id, r |-> ds[i].r, g |-> ds[i].g]],
         orders |-> ords,
-        reqs   |-> [i \in 1..Len(ReqSeq) |-> [m |-> ReqSeq[i].m, h |-> Host(ReqSeq[i].u), p |-> Path(ReqSeq[i].u)]],
+        reqs   |-> [i \in 1..Len(ReqSeq) |-> [m |-> ReqSeq[i].m, h |-> Host(ReqSeq[i].u), p |-> Path(ReqSeq[i].u),
+                                               \* how many declared patterns match this URL (overlap measure)
+                                               nm |-> Cardinality({d \in D : Matches(d.p, ReqSeq[i].u)})]],
         exp    |-> [oi \in 1..Len(ords) |->
                      LET b == Build(Apply(ds, ords[oi])) IN
                      [ri \in 1..Len(ReqSeq) |->
